@@ -5,7 +5,13 @@ CONSTANTS N
 Seed == IF "VERIF_SEED" \in DOMAIN IOEnv THEN atoi(IOEnv.VERIF_SEED) ELSE 0
 VARIABLES s, r
 SeedOf(i) == (Seed * 7919 + i) % 1000003
-Init == s \in 1..N /\ r = <<>>
-Next == r = <<>> /\ r' = <<GenShorthand(SeedOf(s))>> /\ UNCHANGED s
+\* systematic stratum: every group letter in three positions; the harness runs these pairs on a word around EVERY cardinal of the inventory
+Sweep(i) == LET g == ((i - 1) % 9) + 1   shape == ((i - 1) \div 9) + 1
+                rl == CASE shape = 1 -> Rule(<<Grp(g)>>, <<Ipa(Ascii.x)>>, <<>>, <<>>)
+                       [] shape = 2 -> Rule(<<Ipa(Ascii.a)>>, <<Ipa(Ascii.e)>>, <<Env(<<>>, <<Grp(g)>>)>>, <<>>)
+                       [] OTHER     -> Rule(<<WithMods(Grp(g), <<<<"f", F_VOICE, FALSE>>>>)>>, <<Mx(<<<<"f", F_VOICE, TRUE>>>>)>>, <<Env(<<Ipa(Ascii.a)>>, <<>>)>>, <<>>)
+            IN [kind |-> "group-sweep", short |-> <<rl>>, parts |-> <<>>, long |-> <<ExpandGroups(rl)>>]
+Init == s \in 1..(N + 27) /\ r = <<>>
+Next == r = <<>> /\ r' = <<IF s <= N THEN GenShorthand(SeedOf(s)) ELSE Sweep(s - N)>> /\ UNCHANGED s
 Emit == r # <<>> => PrintT(ToJson([seed |-> SeedOf(s), kind |-> r[1].kind, short |-> r[1].short, parts |-> r[1].parts, long |-> r[1].long]))
 =============================================================================
